@@ -125,6 +125,8 @@ func main() {
 		pprof.StopCPUProfile()
 		os.Exit(rc)
 		os.Exit(cmdRun(os.Args[2:]))
+	case "replay":
+		os.Exit(cmdReplay(os.Args[2:]))
 	case "shard":
 		os.Exit(cmdShard(os.Args[2:]))
 	default:
@@ -566,6 +568,58 @@ func cmdRun(args []string) int {
 		return 2
 	}
 	return runCheck(spec, o)
+}
+
+// cmdReplay re-runs one stored counterexample against the current /repo tree: natively (go test
+// with the harness overlay: the real code) and, for diagnosis, concretely in the engine.
+// exit 1 + VIOLATION line when the native run fails the recorded assertion, 0 when it does not.
+func cmdReplay(args []string) int {
+	fs := flag.NewFlagSet("replay", flag.ExitOnError)
+	specPath := fs.String("spec", "", "spec json")
+	file := fs.String("file", "", "replay file")
+	tier := fs.String("tier", "quick", "tier whose parameters apply if the file carries none")
+	fs.Parse(args)
+	spec, err := loadSpec(*specPath)
+	if err != nil {
+		fmt.Fprintln(os.Stderr, err)
+		return 2
+	}
+	if abs, aerr := filepath.Abs(*file); aerr == nil {
+		*file = abs
+	}
+	b, err := os.ReadFile(*file)
+	if err != nil {
+		fmt.Fprintln(os.Stderr, err)
+		return 2
+	}
+	var rf replayFile
+	if err := json.Unmarshal(b, &rf); err != nil {
+		fmt.Fprintln(os.Stderr, err)
+		return 2
+	}
+	for _, u := range spec.Units {
+		hs := findHarness(u, rf.Harness)
+		if hs.Func != rf.Harness || (rf.Package != "" && rf.Package != u.Package) {
+			continue
+		}
+		p, err := loadProgram(u)
+		if err != nil {
+			fmt.Fprintln(os.Stderr, err)
+			return 2
+		}
+		v := &Violation{ID: rf.Assert, Harness: rf.Harness, Nondet: rf.Nondet}
+		ok, out := nativeReplay(u, p, v, *file)
+		_, failed, end := runConcrete(p, u, hs, *tier, rf.Nondet)
+		fmt.Printf("engine (concrete re-run): ended %s %s; failed assertions %v\n", end.kind, end.msg, failed)
+		if ok {
+			fmt.Printf("native: assertion %s fails on the current tree\nVIOLATION property=%s replay=%s\n", rf.Assert, spec.Property, *file)
+			return 1
+		}
+		fmt.Printf("native: assertion %s does not fail on the current tree\n%s\n", rf.Assert, lastLines(out, 40))
+		return 0
+	}
+	fmt.Fprintln(os.Stderr, "harness of the replay file not found in the spec")
+	return 2
 }
 
 func sortedStrs(m map[string]bool) []string {
